@@ -67,7 +67,7 @@ def _e5():
 OBLIGATIONS = [
     Ob("O6.1", _mk("O6.1", "before_delete_contract", "0 <= state_i < 8", "File.before_delete queues only VOLATILE / BUILT / OUTDATED files, with the recorded hash", _e1), "File.before_delete"),
     Ob("O6.1b", _mk("O6.1b", "revert_queue_contract", "0 <= s0 < 3 and 0 <= s1 < 3 and 0 <= n <= 2", "revert_optional_steps queues regular outputs with their hash, volatile ones without", _e2), "queue of revert_optional_steps (also C07/C11)"),
-    Ob("O6.2", _mk("O6.2", "remove_contract", "0 <= k0 < 4 and 0 <= k1 < 4 and 0 <= nfiles <= 2", "remove_deletable_files: only unmodified or volatile files, only empty directories", _e3, 400, 1200), "remove_deletable_files / _prune_empty_dirs", weight=3),
+    Ob("O6.2", _mk("O6.2", "remove_contract", "0 <= k0 < 5 and 0 <= k1 < 5 and 0 <= nfiles <= 2", "remove_deletable_files: only unmodified or volatile files, only empty directories", _e3, 400, 1200), "remove_deletable_files / _prune_empty_dirs", weight=3),
     Ob("O6.3", _mk("O6.3", "finalize_guard", "0 <= ntargets <= 1 and 0 <= ndirs <= 1 and 0 <= rc < 64", "Builder.finalize cleans iff unrestricted, complete, cleaning on", _e4, 400, 1200), "guards of Builder.finalize", weight=3),
     Ob("O6.5", _mk("O6.5", "clean_loop", "0 <= state_i < 3", "stepup clean: --commit, safe mode, volatile, empty parent", _e5), "removal loop of stepup clean", weight=2),
 ]
